@@ -30,5 +30,5 @@ C13_ReturnConverged == Returned => \A c \in Ids(C.cfg) : LastLevel(c) => FinConv
 \* ... and controllers of earlier levels, which the loop does not revisit after later levels have acted
 C13_ReturnConvergedEarlierLevels == Returned => \A c \in Ids(C.cfg) : ~LastLevel(c) => FinConv(c)
 C13_ReturnFresh == Returned => (~f.dirty /\ C.fresh <= FreshTol)
-DIV_Conformance == f.err \notin {"DIV_TapTracking", "DIV_ConvDecision", "DIV_StepDecision", "DIV_UnexpectedRaise"}
+DIV_Conformance == f.div = ""
 =============================================================================
